@@ -259,6 +259,20 @@ def run_verus_unit(name, spec, tier):
             if flaky:
                 inconc.append("flaky query (some seed discharges it): %s" % sorted(set(f["item"] for f in flaky)))
             failures = [f for f in failures if f["item"] in still]
+    # thorough tier: a unit that verifies must also verify under three other Z3 seeds (stability)
+    if tier == "thorough" and not failures and not inconc:
+        with cf.ThreadPoolExecutor(3) as ex:
+            futs = [ex.submit(run, main_path, ("--smt-option", "smt.random_seed=%d" % sd)) for sd in (11, 12, 13)]
+            extra = [f.result() for f in futs]
+        unstable = []
+        for (rrc, rout, rerr, _s, rto) in extra:
+            d2, s2 = _parse_verus_output(rout, rerr)
+            f2, i2 = _classify_diags(d2, regs, glines)
+            if rto or f2 or i2 or s2 is None:
+                unstable.append(sorted(set(x["item"] for x in f2)) or "timeout/limit")
+        res["stability_seeds"] = {"seeds": [11, 12, 13], "unstable": unstable}
+        if unstable:
+            inconc.append("unstable proof: fails under another Z3 seed (%s)" % unstable)
     failed_items = set(f["item"] for f in failures)
     # vacuity twin
     twin_failed_items = set()
@@ -460,6 +474,15 @@ def run_property(pid, tier, update_baseline=False, only_unit=None, write_evidenc
         rc = 2
         for msg in inconclusive:
             print("INCONCLUSIVE property=%s reason=%s" % (pid, msg[:600]))
+    if tier == "thorough" and not only_unit and rc == 0 and os.path.realpath(REPO) == "/repo":
+        from lib import selftest
+        mism, ran = selftest.run_for_property(pid)
+        if mism:
+            rc = 2
+            print("INCONCLUSIVE property=%s reason=self-test of the machinery: %d of %d catalogued source changes did not give the expected verdict" % (pid, mism, ran))
+            inconclusive.append("selftest mismatches: %d of %d" % (mism, ran))
+        else:
+            print("selftest: %d catalogued source changes for %s gave the expected verdicts" % (ran, pid))
     wall = time.time() - t0
     if write_evidence and not only_unit:
         from lib import evidence
